@@ -174,15 +174,17 @@ def gen_net(r, ctx, m, tag):
     return nIn, spec, np_
 
 
-def gen_ef_case(r, ctx, flavour):
+def gen_ef_case(r, ctx, flavour, kind=None):
     loss = r.choice(EF_VEC + EF_CLS)
     m = r.choice([1, 1, 2, 3]) if loss != "squaredclass" else r.choice([2, 3])
     par = dy(r, 0, 2, 1) if loss in ("epshinge", "sqepshinge") else ""
     sizes = gen_sizes(r, ctx, "ef", allow_empty_batch=(flavour != "mini"))
+    if flavour == "mini" and len(sizes) == 1 and r.chance(3, 4):
+        sizes = sizes + [r.range(1, 4) for _ in range(r.range(1, 3))]      # one batch: the mini-batch branch equals the full one
     n, B = sum(sizes), len(sizes)
     nIn, spec, np_ = gen_net(r, ctx, m, "ef")
     T = r.choice([1, 2, 3, 4, 8, B, B + 1])
-    kind = "eval" if r.chance(1, 3) else "deriv"
+    kind = kind or ("eval" if r.chance(1, 3) else "deriv")
     params = " ".join(dy(r, -2, 2, 1) for _ in range(np_))
     xs = " ".join(dy(r, -3, 3, 2) for _ in range(n * nIn))
     labs = gen_labels(r, ctx, loss, n, m, "ef")
@@ -207,7 +209,7 @@ def gen_ef_case(r, ctx, flavour):
         extra = f"reg {rk} {dy(r, 0, 2, 2)}{mk}"
     elif flavour == "comb":
         extra = f"comb {dy(r, 0, 2, 1)} {dy(r, 0, 2, 1)} {dy(r, 0, 2, 1)}"
-    ctx.hist("ef_flavour", flavour); ctx.hist("ef_loss", f"{loss}:m={m}"); ctx.hist("ef_threads_vs_batches", "T>B" if T > B else ("T=B" if T == B else ("T=1" if T == 1 else "1<T<B")))
+    ctx.hist("ef_flavour", f"{flavour}:{kind}"); ctx.hist("ef_loss", f"{loss}:m={m}"); ctx.hist("ef_threads_vs_batches", "T>B" if T > B else ("T=B" if T == B else ("T=1" if T == 1 else "1<T<B")))
     ctx.hist("ef_num_elements", n if n < 4 else "4+")
     return (f"ef {kind} | {loss} {par} | {nIn} {' '.join(spec)} | {T} {' '.join(map(str, order))} | {params} | "
             f"{' '.join(map(str, sizes))} | {xs} | {labs} | {extra}")
@@ -240,7 +242,7 @@ def gen_auc_case(r, ctx, op):
 
 
 def gen_zow_case(r, ctx):
-    sizes = gen_sizes(r, ctx, "zow"); n = sum(sizes); m = r.choice([1, 2, 3])
+    sizes = gen_sizes(r, ctx, "zow", allow_empty_batch=False); n = sum(sizes); m = r.choice([1, 2, 3])   # with more batches than elements F-C06-1 reads beyond the weight vector
     labs = gen_labels(r, ctx, "zeroone", n, m, "zow")
     prs = " ".join(dy(r, -3, 3, 2) for _ in range(n * m))
     ws = " ".join(dy(r, 0, 3, 1) for _ in range(n))
@@ -251,7 +253,10 @@ def gen_misc_case(r, ctx):
     k = r.choice(["zeroonelabel", "discrete", "balanced", "seq", "seq", "hessplaceholder"])
     if k in ("zeroonelabel", "discrete", "balanced"):
         n = r.choice([0, 1, 2, 5]); c = r.range(1, 4)
-        labs = " ".join(str(r.below(c)) for _ in range(n)); prs = " ".join(str(r.below(c)) for _ in range(n))
+        if k == "balanced": n = max(n, 1)
+        ll = [r.below(c) for _ in range(n)]
+        if k == "balanced": ll[0] = c - 1          # defineBalancedCost sizes the matrix by the largest label present
+        labs = " ".join(map(str, ll)); prs = " ".join(str(r.below(c)) for _ in range(n))
         par = ""
         if k == "discrete":
             par = " ".join(("0" if a == b else dy(r, 0, 4, 2)) for a in range(c) for b in range(c))
@@ -278,7 +283,7 @@ def load_corpus():
     out = []
     for f in sorted(os.listdir(d)) if os.path.isdir(d) else []:
         ls = [l.strip() for l in open(os.path.join(d, f)) if l.strip() and not l.startswith("#")]
-        if ls: out.append(ls)
+        if ls: out.append((f, ls))
     return out
 
 
@@ -303,7 +308,7 @@ def run(ctx):
     translate(ctx)
     ctx.prove(PROOF_MODULES)
     if not ctx.quick:
-        ctx.leanchecker(PROOF_MODULES)
+        ctx.leanchecker(["SharkVerif.Props.C06"])
     exe = build(ctx); drv = ctx.driver("drv_c06")
     if not exe:
         return
@@ -334,9 +339,10 @@ def run(ctx):
             m = " ".join((str(r.below(2)) if r.chance(1, 2) else dy(r, 0, 3, 1)) for _ in range(k))
             cases.append(["mode rat", f"{r.choice(['onenorm', 'twonorm'])} | {x} | {m}"])
     # ---- second part: the real ErrorFunction in all its flavours, the cost interface, AUC, the remaining losses
-    for fl, cnt in (("none", per), ("w", per // 2), ("mini", per // 4), ("reg", per // 4), ("comb", per // 8)):
-        for _ in range(max(cnt, 4)):
-            cases.append(["mode float", gen_ef_case(r, ctx, fl)])
+    for fl, cnt in (("none", per), ("w", per // 2), ("mini", per // 2), ("reg", per // 2), ("comb", per // 4)):
+        for i in range(max(cnt, 4)):
+            # both entry points of every flavour in every run: eval and evalDerivative alternate
+            cases.append(["mode float", gen_ef_case(r, ctx, fl, kind=("eval", "deriv", "deriv")[i % 3])])
     for _ in range(per // 2):
         cases.append(["mode float", gen_cost_case(r, ctx)])
         cases.append(["mode float", gen_auc_case(r, ctx, "auc")])
@@ -345,8 +351,11 @@ def run(ctx):
     if have_wmw:
         for _ in range(per // 2):
             cases.append(["mode float", gen_auc_case(r, ctx, "wmw")])
-    corpus = load_corpus()
-    ctx.cov["corpus_cases"] = len(corpus)
+    allcorpus = load_corpus()
+    ctx.cov["corpus_cases"] = len(allcorpus)
+    # corpus files f<k>_*.txt are the minimised inputs of the recorded defects F-C06-<k>: they run with the recorded-defects cases
+    fcorpus = [c for n, c in allcorpus if re.match(r"f\d+_", n)]
+    corpus = [c for n, c in allcorpus if not re.match(r"f\d+_", n)]
     cases = corpus + cases
     for c in cases:
         ctx.hist("op_kinds", " ".join(c[1].split()[:2]) if c[1].split()[0] in ("eval", "deriv") else c[1].split()[0])
@@ -358,7 +367,7 @@ def run(ctx):
         ctx.sample({"ops": next(c for c in cases if c[1].startswith("ef ") and c[1].split("|")[-1].split()[0] == fl)}, limit=10)
     # ---- defects of the checked tree that are recorded in known_findings.json: each has its own small run, so that
     # ---- the main run stays clean and the key stays narrow (the harness emits the F-C06-* tag only for the exact signature)
-    fcases = [["mode float", gen_zow_case(r, ctx)] for _ in range(12)]
+    fcases = fcorpus + [["mode float", gen_zow_case(r, ctx)] for _ in range(12)]
     fcases += [["mode float", f"hess crossentropy | | 1 {m} | {r.below(max(m, 2))} | {' '.join(dy(r, -4, 4, 3) for _ in range(m))}"] for m in (1, 1, 2, 3, 4, 3)]
     fcases += [["mode float", f"ef {k} | squared | 1 linear:{hb}:1 | {t} | {' '.join(['1'] * (1 + hb))} | | | | none"] for k in ("eval", "deriv") for hb in (0, 1) for t in (1, 3)]
     ctx.hist("op_kinds", "zow", 12); ctx.hist("op_kinds", "hess crossentropy", 6); ctx.hist("op_kinds", "ef empty-dataset", 8)
